@@ -405,27 +405,28 @@ VCLAUSE(kde, 500, 1500, 30000, "weights differ by more than a factor 10, or the 
 	int N = (int) s.range(2, 120);
 	std::vector<DataPoint> data;
 	double wmin = 1e308, wmax = 0;
-	int mode = s.pick({2, 1, 1});
+	int mode = s.pick({4, 2, 2, 1, 1});   // uniform, central bump, piled towards xMin, tight cluster, all identical
+	double centre = s.unit(), spread = std::pow(10.0, s.uniform(-15, -2));
+	bool any_positive = false;
 	for(int i = 0; i < N; i++)
 	{
-		double u = mode == 0 ? s.unit() : (mode == 1 ? 0.5 + 0.12 * (s.unit() + s.unit() + s.unit() - 1.5) : s.unit() * s.unit());
-		double w = s.coin() ? 1.0 : std::pow(10.0, s.uniform(-2, 2));
+		double u = mode == 0 ? s.unit() : (mode == 1 ? 0.5 + 0.12 * (s.unit() + s.unit() + s.unit() - 1.5) : (mode == 2 ? s.unit() * s.unit() : (mode == 3 ? centre + spread * (s.unit() - 0.5) : centre)));
+		double w = s.coin() ? 1.0 : (s.chance(0.05) ? 0.0 : std::pow(10.0, s.uniform(-2, 2)));
+		if(i == N - 1 && !any_positive && w == 0)
+			w = 1.0;   // a sample without any weight has no density
+		any_positive = any_positive || w > 0;
 		data.push_back(DataPoint(xmin + W * std::min(std::max(u, 0.0), 1.0), w));
-		wmin = std::min(wmin, w);
+		if(w > 0)
+			wmin = std::min(wmin, w);
 		wmax = std::max(wmax, w);
 	}
-	// at least two distinct values (the automatic bandwidth divides by the spread)
-	if(data[0].value == data[1].value)
-		data[1].value = xmin + W * 0.5 * (1 + 0.3 * (data[0].value == xmin + 0.5 * W ? 1 : 0)) ;
-	bool distinct = false;
-	for(int i = 1; i < N; i++)
-		if(data[(size_t) i].value != data[0].value)
-			distinct = true;
-	if(!distinct)
-		throw Discard();
+	if(mode >= 3)
+		c.cls(mode == 3 ? "kde_tight_cluster" : "kde_identical_data");
 	double dx = W / 149.0;
 	bool automatic = s.chance(0.3);
-	double bw = automatic ? 0.0 : dx * std::pow(10.0, s.uniform(std::log10(1.5), std::log10(149.0)));
+	double bw = automatic ? 0.0 : dx * std::pow(10.0, s.chance(0.2) ? s.uniform(-6, 0.2) : s.uniform(std::log10(1.5), std::log10(149.0)));
+	if(!automatic && bw < dx)
+		c.cls("kde_bandwidth_below_grid_step");
 	bool edge = false;
 	for(auto& d : data)
 		if(d.value - xmin < (bw > 0 ? bw : 0.05 * W) || xmax - d.value < (bw > 0 ? bw : 0.05 * W))
@@ -433,6 +434,13 @@ VCLAUSE(kde, 500, 1500, 30000, "weights differ by more than a factor 10, or the 
 	if(wmax > 10 * wmin || (bw > 0 && bw < 3 * dx) || edge)
 		c.nt();
 	VLOG(c, "KDE window [" << xmin << "," << xmax << "] N=" << N << " bandwidth=" << bw << (automatic ? " (automatic)" : "") << " weights in [" << wmin << "," << wmax << "]");
+	{
+		std::ostringstream o;
+		o.precision(17);
+		for(int i = 0; i < N && i < 12; i++)
+			o << " (" << data[(size_t) i].value << "," << data[(size_t) i].weight << ")";
+		VLOG(c, "KDE data (first 12):" << o.str());
+	}
 	Interpolation k;
 	VMUST_RETURN("Perform_KDE", k = Perform_KDE(data, xmin, xmax, bw));
 	// non-negative density; integrates to one: by the spline's own integral and by an independent per-segment Gauss sum
